@@ -197,7 +197,7 @@ Definition dep_tc cs t (d : deps_t) (c : tchange) : deps_t :=
   | AddFK f => dep_addfk t f d
   | ModifyFK _ to => dep_addfk t to d
   | DropFK f => dep_dropfk cs f d
-  | _ => d
+  | Other _ => d
   end.
 
 Lemma grows_tc cs t : grows (dep_tc cs t).
@@ -207,20 +207,6 @@ Proof.
   - apply (grows_dropfk cs d f Hs).
   - apply (grows_addfk t d to Hs).
   - split; [exact Hs|intros x y H; exact H].
-  - split; [exact Hs|intros x y H; exact H].
-Qed.
-
-Lemma fold_left_ext_tc cs t tcs d :
-  fold_left (fun d c => match c with
-                        | AddFK f => dep_addfk t f d
-                        | ModifyFK _ to => dep_addfk t to d
-                        | DropFK f => dep_dropfk cs f d
-                        | Other _ => d
-                        | ColType _ _ => d
-                        end) tcs d = fold_left (dep_tc cs t) tcs d.
-Proof.
-  revert d. induction tcs as [|tc tcs IH]; intros d; simpl; [reflexivity|].
-  destruct tc; simpl; apply IH.
 Qed.
 
 Lemma dep_change_eq cs d c :
@@ -229,16 +215,12 @@ Lemma dep_change_eq cs d c :
   | AddTable t fks => fold_left (fun d f => dep_addfk t f d) fks d
   | DropTable t fks => fold_left (fun d f => dep_dropfk cs f d) fks d
   | ModifyTable t tcs => fold_left (dep_tc cs t) tcs d
-  | _ => d
   end.
-Proof.
-  destruct c as [t fks|t fks|t tcs|o|o]; try reflexivity.
-Qed.
+Proof. destruct c; reflexivity. Qed.
 
 Lemma grows_change cs : grows (dep_change cs).
 Proof.
-  intros d c Hs. rewrite dep_change_eq. destruct c as [t fks|t fks|t tcs|o|o];
-    try (split; [exact Hs|intros x y H; exact H]).
+  intros d c Hs. rewrite dep_change_eq. destruct c as [t fks|t fks|t tcs].
   - apply (fold_grows _ (grows_addfk t) fks d Hs).
   - apply (fold_grows _ (grows_dropfk cs) fks d Hs).
   - apply (fold_grows _ (grows_tc cs t) tcs d Hs).
@@ -268,7 +250,7 @@ Proof.
   apply (fold_grows_in _ (grows_change cs) cs [] (ModifyTable t tcs) _ _ ksorted_nil Hc).
   intros d0 Hs0. rewrite dep_change_eq.
   apply (fold_grows_in _ (grows_tc cs t) tcs d0 tc _ _ Hs0 Htc).
-  intros d1 Hs1. destruct tc as [g|g|from to|k|kd e0]; simpl in Hf; try (destruct Hf; fail);
+  intros d1 Hs1. destruct tc as [g|g|from to|k]; simpl in Hf; try (destruct Hf; fail);
     destruct Hf as [<-|[]]; simpl; unfold dep_addfk; rewrite Hp; simpl; apply deps_add_in; exact Hs1.
 Qed.
 
@@ -286,25 +268,22 @@ Qed.
 Lemma isDropped_iff cs t : isDropped cs t = true <-> In (t_name t) (flat_map drops cs).
 Proof.
   unfold isDropped. rewrite existsb_exists, in_drops_iff. split.
-  - intros [x [Hx H]]. destruct x as [|t' fks| | |]; try discriminate.
+  - intros [x [Hx H]]. destruct x as [|t' fks|]; try discriminate.
     apply Nat.eqb_eq in H. exists t', fks. split; assumption.
   - intros [t' [fks [Hx H]]]. exists (DropTable t' fks). split; [exact Hx|]. apply Nat.eqb_eq. exact H.
 Qed.
 
 (** * Well-formed change sets and consistent catalogues *)
 Definition tc_fks (tc : tchange) : list fkey :=
-  match tc with AddFK f => [f] | DropFK f => [f] | ModifyFK a b => [a; b] | _ => [] end.
+  match tc with AddFK f => [f] | DropFK f => [f] | ModifyFK a b => [a; b] | Other _ => [] end.
 Definition change_fks (c : change) : list fkey :=
   match c with
   | AddTable _ fks => fks
   | DropTable _ fks => fks
   | ModifyTable _ tcs => flat_map tc_fks tcs
-  | _ => []
   end.
 
 Record WF (cs : list change) : Prop := {
-  (* table changes only: enum objects are modelled and tied (SortModel.v) but outside the theorems *)
-  wf_tabs : forall x, In x cs -> is_obj x = false;
   (* each table is in at most one of add / drop / modify *)
   wf_names : NoDup (map nm cs);
   (* a foreign key that references the very object of its change references that table (ids determine names) *)
@@ -317,9 +296,9 @@ Record WF (cs : list change) : Prop := {
   (* the keys of a dropped table have distinct symbols; a ModifyTable drops / re-points a symbol at most once *)
   wf_rm : forall x, In x cs ->
             match x with
+            | AddTable _ _ => True
             | DropTable _ fks => NoDup (map f_sym fks)
             | ModifyTable _ tcs => NoDup (flat_map tc_rm tcs)
-            | _ => True
             end
 }.
 
@@ -329,7 +308,6 @@ Definition covers (x : change) (e : nat * nat * nat) : Prop :=
   | AddTable _ _ => False
   | DropTable _ fks => exists f, In f fks /\ f_sym f = snd (fst e) /\ t_name (f_ref f) = snd e
   | ModifyTable _ tcs => existsb (tc_removes (snd (fst e))) tcs = true
-  | _ => False
   end.
 
 Record consistent (c : cat) (cs : list change) : Prop := {
@@ -345,9 +323,9 @@ Record consistent (c : cat) (cs : list change) : Prop := {
   (* the keys of a dropped table, and the keys a ModifyTable drops or re-points, are live *)
   cn_rm_live : forall x, In x cs ->
                  match x with
+                 | AddTable _ _ => True
                  | DropTable t fks => forall f, In f fks -> exists p, In (t_name t, f_sym f, p) (c_fks c)
                  | ModifyTable t tcs => forall s, In s (flat_map tc_rm tcs) -> exists p, In (t_name t, s, p) (c_fks c)
-                 | _ => True
                  end
 }.
 
@@ -409,7 +387,7 @@ Qed.
 
 Lemma rm_keys_fst x k : In k (rm_keys x) -> fst k = nm x.
 Proof.
-  destruct x as [t fks|t fks|t tcs|o|o]; simpl; intros H; try (destruct H; fail).
+  destruct x as [t fks|t fks|t tcs]; simpl; intros H; try (destruct H; fail).
   apply in_map_iff in H. destruct H as [s [<- _]]. reflexivity.
 Qed.
 
@@ -477,7 +455,7 @@ Qed.
 
 Lemma added_sub_change x f : In f (added_fks x) -> In f (change_fks x).
 Proof.
-  destruct x as [t fks|t fks|t tcs|o|o]; simpl; intros H; [exact H|destruct H| |destruct H|destruct H].
+  destruct x as [t fks|t fks|t tcs]; simpl; intros H; [exact H|destruct H|].
   apply in_flat_map in H. destruct H as [tc [Htc Hf]]. apply in_flat_map. exists tc. split; [exact Htc|].
   destruct tc; simpl in *; tauto.
 Qed.
@@ -530,7 +508,7 @@ Section WithWF.
     Definition ra (x : change) : nat := sort_key sorted x + (if is_drop x then Koff else 0).
 
     Lemma key_bound x : sort_key sorted x <= length sorted.
-    Proof. unfold sort_key. destruct (is_obj x); [lia|]. apply (sortMap_ok_bound cs sorted _ Hsm). Qed.
+    Proof. unfold sort_key. apply (sortMap_ok_bound cs sorted _ Hsm). Qed.
 
     Lemma idx_lt x y : In y (deps_get x (dependencies cs)) -> sorted_idx sorted y < sorted_idx sorted x.
     Proof. apply (sortMap_ok_order cs sorted Hsm). Qed.
@@ -561,8 +539,9 @@ Section WithWF.
       sorted_idx sorted (t_name (f_ref f)) < sort_key sorted x.
     Proof.
       intros Hx Hf Hn. pose proof (ptr_false x f Hx (added_sub_change x f Hf) Hn) as Hp.
-      destruct x as [t fks|t fks|t tcs|o|o]; unfold sort_key; simpl in *; try (destruct Hf; fail); apply idx_lt.
+      unfold sort_key. apply idx_lt. destruct x as [t fks|t fks|t tcs]; simpl in *.
       - apply (deps_of_add cs t fks f Hx Hf Hp).
+      - destruct Hf.
       - apply (deps_of_modify cs t tcs f Hx Hf Hp).
     Qed.
 
@@ -570,8 +549,7 @@ Section WithWF.
     Proof.
       intros Hx Hy Hne Hd.
       assert (Hnn : nm x <> nm y) by (intros E; apply Hne; apply names_inj; assumption).
-      pose proof (wf_tabs cs HWF x Hx) as Hox. pose proof (wf_tabs cs HWF y Hy) as Hoy.
-      destruct x as [t1 f1|t1 f1|t1 tcs1|o1|o1]; destruct y as [t2 f2|t2 f2|t2 tcs2|o2|o2]; simpl in Hd; try discriminate.
+      destruct x as [t1 f1|t1 f1|t1 tcs1]; destruct y as [t2 f2|t2 f2|t2 tcs2]; simpl in Hd; try discriminate.
       - (* Add / Add *)
         apply refTo_ex in Hd. destruct Hd as [f [Hf Hr]].
         assert (Hlt := decl_key_lt (AddTable t1 f1) f Hx Hf). simpl in Hlt.
@@ -599,7 +577,7 @@ Section WithWF.
         + apply Nat.eqb_eq in Hd. simpl in Hnn. contradiction.
         + apply existsb_exists in Hd. destruct Hd as [tc [Htc Hd]].
           assert (Hex : exists f, In f (tc_added tc) /\ t_name (f_ref f) = t_name t2).
-          { destruct tc as [f| |from to| |]; try discriminate; apply Nat.eqb_eq in Hd;
+          { destruct tc as [f| |from to|]; try discriminate; apply Nat.eqb_eq in Hd;
               eexists; (split; [left; reflexivity|exact Hd]). }
           destruct Hex as [f [Hftc Hd']]. clear Hd. rename Hd' into Hd.
           assert (Hf : In f (added_fks (ModifyTable t1 tcs1))).
@@ -653,7 +631,7 @@ Section WithWF.
             subst x. simpl. simpl in E. rewrite E. reflexivity.
           * left. left. exists (AddTable t' fks'). split; [apply inP; exact Hy|]. split; [simpl; rewrite Hn; reflexivity|].
             pose proof (decl_key_lt x f Hx Hf E) as Hlt. unfold ra, sort_key at 1. simpl. rewrite Hn.
-            destruct (is_drop x) eqn:Ed; [|lia]. destruct x; simpl in Hf; try discriminate; destruct Hf.
+            destruct (is_drop x) eqn:Ed; [|lia]. destruct x; simpl in Hf; try discriminate. destruct Hf.
       - (* modified tables *)
         intros t tcs Hx. apply (proj1 (inP _)) in Hx. split.
         + intros y _ Hy. unfold ra. rewrite Hy. simpl. pose proof (key_bound (ModifyTable t tcs)). unfold Koff. lia.
@@ -665,7 +643,7 @@ Section WithWF.
         assert (Hne' : fst (fst e) <> snd e) by (rewrite Hp; exact Hne).
         destruct (cn_live c cs Hcons e He Hpd Hne') as [y [Hy [Hny Hcov]]].
         exists y. split; [apply inP; exact Hy|].
-        destruct y as [t fks0|t fks0|t tcs|o|o]; simpl in Hcov; try (destruct Hcov; fail).
+        destruct y as [t fks0|t fks0|t tcs]; simpl in Hcov; [destruct Hcov| |].
         * destruct Hcov as [f [Hf [Hs Hr]]]. unfold nm in Hny; simpl in Hny. split; [simpl; apply Nat.eqb_eq; exact Hny|].
           assert (Hdr : isDropped cs (f_ref f) = true) by (apply isDropped_iff; rewrite Hr; exact Hpd).
           pose proof (deps_of_drop cs t fks0 f Hy Hf Hdr) as Hin.
@@ -676,10 +654,10 @@ Section WithWF.
       - (* explicitly dropped keys: once, and live *)
         apply (Permutation_NoDup (Permutation_flat_map rm_keys perm_part)).
         apply NoDup_keys; [apply (wf_names cs HWF)| |intros x k _; apply rm_keys_fst].
-        intros x Hx. pose proof (wf_rm cs HWF x Hx) as Hw. destruct x as [t fks|t fks|t tcs|o|o]; simpl; try constructor.
+        intros x Hx. pose proof (wf_rm cs HWF x Hx) as Hw. destruct x as [t fks|t fks|t tcs]; simpl; try constructor.
         apply NoDup_map_pair. exact Hw.
       - intros k Hk. apply (proj1 (fm_in _ _)) in Hk. apply in_flat_map in Hk. destruct Hk as [x [Hx Hk]].
-        pose proof (cn_rm_live c cs Hcons x Hx) as Hl. destruct x as [t fks|t fks|t tcs|o|o]; simpl in Hk; try (destruct Hk; fail).
+        pose proof (cn_rm_live c cs Hcons x Hx) as Hl. destruct x as [t fks|t fks|t tcs]; simpl in Hk; try (destruct Hk; fail).
         apply in_map_iff in Hk. destruct Hk as [s0 [<- Hs]]. apply (Hl s0 Hs).
     Qed.
 
@@ -698,7 +676,6 @@ Definition rc (x : change) : nat :=
   | AddTable _ _ => 0
   | ModifyTable _ tcs => if forallb is_addfk tcs then 1 else 0
   | DropTable _ _ => 2
-  | _ => 0
   end.
 
 Inductive pimage : change -> change -> Prop :=
@@ -719,9 +696,9 @@ Proof.
   destruct (p a) eqn:E; [discriminate|]. destruct Hx as [<-|Hx]; [exact E|apply IH; assumption].
 Qed.
 
-Lemma det_planned_image src x : is_obj src = false -> In x (det_planned src) -> pimage src x.
+Lemma det_planned_image src x : In x (det_planned src) -> pimage src x.
 Proof.
-  destruct src as [t fks|t fks|t tcs|o|o]; simpl; intros Hobj; try discriminate.
+  destruct src as [t fks|t fks|t tcs]; simpl.
   - destruct (filter (fun f => negb (ptr_eqb (f_ref f) t)) fks) as [|e ext] eqn:E; intros [<-|[]].
     + apply pi_add. intros f Hf. split; [exact Hf|].
       pose proof (filter_nil_all _ fks E f Hf) as H. apply negb_false_iff in H. exact H.
@@ -734,7 +711,7 @@ Qed.
 
 Lemma det_deferred_image src x : In x (det_deferred src) -> dimage src x.
 Proof.
-  destruct src as [t fks|t fks|t tcs|o|o]; simpl; try (intros []; fail).
+  destruct src as [t fks|t fks|t tcs]; simpl.
   - destruct (filter (fun f => negb (ptr_eqb (f_ref f) t)) fks) as [|e ext] eqn:E; [intros []|intros [<-|[]]].
     rewrite <- E. apply di_add. unfold ext_of. rewrite E. discriminate.
   - destruct (filter (fun f => negb (ptr_eqb (f_ref f) t)) fks) as [|e ext] eqn:E; intros [<-|[]].
@@ -745,12 +722,12 @@ Proof.
     rewrite <- E. apply di_mod. rewrite E. discriminate.
 Qed.
 
-Lemma detach_image cs x : (forall y, In y cs -> is_obj y = false) -> In x (detachReferences cs) ->
+Lemma detach_image cs x : In x (detachReferences cs) ->
   exists src, In src cs /\ (pimage src x \/ dimage src x).
 Proof.
-  unfold detachReferences. intros Hobj H. apply in_app_or in H. destruct H as [H|H];
+  unfold detachReferences. intros H. apply in_app_or in H. destruct H as [H|H];
     apply in_flat_map in H; destruct H as [src [Hs Hx]]; exists src; split; try exact Hs.
-  - left. apply det_planned_image; [apply Hobj; exact Hs|exact Hx].
+  - left. apply det_planned_image. exact Hx.
   - right. apply det_deferred_image. exact Hx.
 Qed.
 
@@ -789,11 +766,50 @@ Proof.
   - rewrite forallb_addfk_fks. split; [left; split; reflexivity|reflexivity].
 Qed.
 
+Lemma SS_const (r : change -> nat) k l : (forall x, In x l -> r x = k) -> StronglySorted (rle r) l.
+Proof.
+  induction l as [|a l IH]; intros H; [constructor|]. constructor.
+  - apply IH. intros x Hx. apply H. right. exact Hx.
+  - apply Forall_forall. intros y Hy. unfold rle. rewrite (H a (or_introl eq_refl)), (H y (or_intror Hy)). lia.
+Qed.
+
+Lemma detach_sorted cs : StronglySorted (rle rc) (partition_changes (detachReferences cs)).
+Proof.
+  unfold partition_changes, detachReferences. rewrite !filter_app.
+  assert (HP : forall x, In x (flat_map det_planned cs) -> rc x = 0 /\ is_drop x = false).
+  { intros x Hx. apply in_flat_map in Hx. destruct Hx as [src [_ Hx]].
+    destruct (pimage_rank src x (det_planned_image src x Hx)) as [H1 [H2 _]]. split; assumption. }
+  assert (HD : forall x, In x (flat_map det_deferred cs) ->
+             (rc x = 1 /\ is_drop x = false) \/ (rc x = 2 /\ is_drop x = true)).
+  { intros x Hx. apply in_flat_map in Hx. destruct Hx as [src [_ Hx]].
+    apply (proj1 (dimage_rank src x (det_deferred_image src x Hx))). }
+  apply SS_app.
+  - apply SS_app.
+    + apply SS_const with (k := 0). intros x Hx. apply filter_In in Hx. apply HP. tauto.
+    + apply SS_const with (k := 1). intros x Hx. apply filter_In in Hx. destruct Hx as [Hx Hn].
+      apply negb_true_iff in Hn. destruct (HD x Hx) as [[H _]|[_ H]]; [exact H|congruence].
+    + intros x y Hx Hy. apply filter_In in Hx. apply filter_In in Hy. unfold rle.
+      rewrite (proj1 (HP x (proj1 Hx))). lia.
+  - apply SS_const with (k := 2). intros x Hx. apply in_app_or in Hx. destruct Hx as [Hx|Hx]; apply filter_In in Hx; destruct Hx as [Hx Hd].
+    + destruct (HP x Hx) as [_ H]. congruence.
+    + destruct (HD x Hx) as [[_ H]|[H _]]; [congruence|exact H].
+  - intros x y Hx Hy. unfold rle.
+    assert (Hrx : rc x <= 1).
+    { apply in_app_or in Hx. destruct Hx as [Hx|Hx]; apply filter_In in Hx; destruct Hx as [Hx Hn].
+      - rewrite (proj1 (HP x Hx)). lia.
+      - apply negb_true_iff in Hn. destruct (HD x Hx) as [[H _]|[_ H]]; [lia|congruence]. }
+    assert (Hry : rc y = 2).
+    { apply in_app_or in Hy. destruct Hy as [Hy|Hy]; apply filter_In in Hy; destruct Hy as [Hy Hd].
+      - destruct (HP y Hy) as [_ H]. congruence.
+      - destruct (HD y Hy) as [[_ H]|[H _]]; [congruence|exact H]. }
+    lia.
+Qed.
+
 (* table-level effects are kept by detaching, in order *)
 Lemma planned_adds cs : flat_map adds (flat_map det_planned cs) = flat_map adds cs.
 Proof.
   induction cs as [|x cs IH]; simpl; [reflexivity|]. rewrite flat_map_app, IH. f_equal.
-  destruct x as [t fks|t fks|t tcs|o|o]; simpl; try reflexivity.
+  destruct x as [t fks|t fks|t tcs]; simpl.
   - destruct (filter _ fks); reflexivity.
   - destruct (filter _ fks); reflexivity.
   - destruct (filter _ tcs); reflexivity.
@@ -802,7 +818,7 @@ Qed.
 Lemma deferred_adds cs : flat_map adds (flat_map det_deferred cs) = [].
 Proof.
   induction cs as [|x cs IH]; simpl; [reflexivity|]. rewrite flat_map_app, IH.
-  destruct x as [t fks|t fks|t tcs|o|o]; simpl; try reflexivity.
+  destruct x as [t fks|t fks|t tcs]; simpl.
   - destruct (filter _ fks); reflexivity.
   - destruct (filter _ fks); reflexivity.
   - destruct (filter _ tcs); reflexivity.
@@ -811,7 +827,7 @@ Qed.
 Lemma planned_drops cs : flat_map drops (flat_map det_planned cs) = [].
 Proof.
   induction cs as [|x cs IH]; simpl; [reflexivity|]. rewrite flat_map_app, IH.
-  destruct x as [t fks|t fks|t tcs|o|o]; simpl; try reflexivity.
+  destruct x as [t fks|t fks|t tcs]; simpl.
   - destruct (filter _ fks); reflexivity.
   - destruct (filter _ fks); reflexivity.
   - destruct (filter _ tcs); reflexivity.
@@ -820,7 +836,7 @@ Qed.
 Lemma deferred_drops cs : flat_map drops (flat_map det_deferred cs) = flat_map drops cs.
 Proof.
   induction cs as [|x cs IH]; simpl; [reflexivity|]. rewrite flat_map_app, IH. f_equal.
-  destruct x as [t fks|t fks|t tcs|o|o]; simpl; try reflexivity.
+  destruct x as [t fks|t fks|t tcs]; simpl.
   - destruct (filter _ fks); reflexivity.
   - destruct (filter _ fks); reflexivity.
   - destruct (filter _ tcs); reflexivity.
@@ -854,7 +870,7 @@ Qed.
 
 Lemma det_planned_len x : length (det_planned x) <= 1.
 Proof.
-  destruct x as [t fks|t fks|t tcs|o|o]; simpl; try lia.
+  destruct x as [t fks|t fks|t tcs]; simpl.
   - destruct (filter _ fks); simpl; lia.
   - destruct (filter _ fks); simpl; lia.
   - destruct (filter _ tcs); simpl; lia.
@@ -862,7 +878,7 @@ Qed.
 
 Lemma det_deferred_len x : length (det_deferred x) <= 1.
 Proof.
-  destruct x as [t fks|t fks|t tcs|o|o]; simpl; try lia.
+  destruct x as [t fks|t fks|t tcs]; simpl.
   - destruct (filter _ fks); simpl; lia.
   - destruct (filter _ fks); simpl; lia.
   - destruct (filter _ tcs); simpl; lia.
@@ -929,13 +945,13 @@ Lemma modify_depends_on_add t tcs f t2 fks2 :
 Proof.
   intros Hf Hn. simpl. apply orb_true_iff. right. apply existsb_exists.
   apply in_flat_map in Hf. destruct Hf as [tc [Htc Hf]]. exists tc. split; [exact Htc|].
-  destruct tc as [g|g|from to|k|kd e0]; simpl in Hf; try (destruct Hf; fail); destruct Hf as [<-|[]];
+  destruct tc as [g|g|from to|k]; simpl in Hf; try (destruct Hf; fail); destruct Hf as [<-|[]];
     apply Nat.eqb_eq; exact Hn.
 Qed.
 
 (* rank witnessing that dependsOn is acyclic on a detached plan *)
 Definition rho_c (x : change) : nat :=
-  match x with AddTable _ _ => 0 | ModifyTable _ _ => 1 | DropTable _ _ => 2 | _ => 0 end.
+  match x with AddTable _ _ => 0 | ModifyTable _ _ => 1 | DropTable _ _ => 2 end.
 
 (* the keys the detached plan drops explicitly, per source change *)
 Definition pkeys (src : change) : list (nat * nat) :=
@@ -943,7 +959,6 @@ Definition pkeys (src : change) : list (nat * nat) :=
   | AddTable _ _ => []
   | DropTable t fks => map (pair (t_name t)) (map f_sym (ext_of t fks))
   | ModifyTable t tcs => map (pair (t_name t)) (flat_map tc_rm tcs)
-  | _ => []
   end.
 
 Lemma tc_rm_mapdrop l : flat_map tc_rm (map DropFK l) = map f_sym l.
@@ -964,7 +979,7 @@ Qed.
 
 Lemma rm_keys_planned src : flat_map rm_keys (det_planned src) = pkeys src.
 Proof.
-  destruct src as [t fks|t fks|t tcs|o|o]; simpl; try reflexivity.
+  destruct src as [t fks|t fks|t tcs]; simpl.
   - destruct (filter _ fks); reflexivity.
   - unfold ext_of. destruct (filter (fun f => negb (ptr_eqb (f_ref f) t)) fks) as [|e ext] eqn:E; [reflexivity|].
     change (flat_map rm_keys [ModifyTable t (map DropFK (e :: ext))])
@@ -981,7 +996,7 @@ Qed.
 
 Lemma rm_keys_deferred src : flat_map rm_keys (det_deferred src) = [].
 Proof.
-  destruct src as [t fks|t fks|t tcs|o|o]; simpl; try reflexivity.
+  destruct src as [t fks|t fks|t tcs]; simpl.
   - destruct (filter (fun f => negb (ptr_eqb (f_ref f) t)) fks) as [|e ext] eqn:E; [reflexivity|].
     assert (Hz : flat_map tc_rm (map AddFK (e :: ext)) = []).
     { apply tc_rm_addfks. intros tc Htc. apply in_map_iff in Htc. destruct Htc as [g [<- _]]. reflexivity. }
@@ -1007,19 +1022,6 @@ Proof.
   rewrite H1, H2, app_nil_r. reflexivity.
 Qed.
 
-Lemma image_not_obj src x : pimage src x \/ dimage src x -> is_obj x = false.
-Proof. intros [H|H]; destruct H; reflexivity. Qed.
-
-Lemma det_planned_nm x y : In y (det_planned x) -> nm y = nm x.
-Proof.
-  destruct x as [t fks|t fks|t tcs|o|o]; simpl.
-  - destruct (filter _ fks); intros [<-|[]]; reflexivity.
-  - destruct (filter _ fks); [intros []|intros [<-|[]]; reflexivity].
-  - destruct (filter _ tcs); [intros []|intros [<-|[]]; reflexivity].
-  - intros [<-|[]]; reflexivity.
-  - intros [<-|[]]; reflexivity.
-Qed.
-
 Section Cyclic.
   Variable cs : list change.
   Variable c : cat.
@@ -1032,12 +1034,12 @@ Section Cyclic.
   Proof.
     unfold L, detachReferences.
     destruct (names_flat_map det_planned cs) as [HP _];
-      [apply det_planned_nm|apply det_planned_len|apply (wf_names cs HWF)|].
+      [intros x y Hy; apply (pimage_rank x y (det_planned_image x y Hy))|apply det_planned_len|apply (wf_names cs HWF)|].
     destruct (names_flat_map det_deferred cs) as [HD _];
       [intros x y Hy; apply (dimage_rank x y (det_deferred_image x y Hy))|apply det_deferred_len|apply (wf_names cs HWF)|].
     apply NoDup_app_intro; [apply NoDup_of_names; exact HP|apply NoDup_of_names; exact HD|].
-    intros x H1 H2. apply in_flat_map in H1. destruct H1 as [s1 [Hs1 H1]]. apply in_flat_map in H2. destruct H2 as [s2 [_ H2]].
-    destruct (pimage_rank s1 x (det_planned_image s1 x (wf_tabs cs HWF s1 Hs1) H1)) as [R1 _].
+    intros x H1 H2. apply in_flat_map in H1. destruct H1 as [s1 [_ H1]]. apply in_flat_map in H2. destruct H2 as [s2 [_ H2]].
+    destruct (pimage_rank s1 x (det_planned_image s1 x H1)) as [R1 _].
     destruct (dimage_rank s2 x (det_deferred_image s2 x H2)) as [[[R2 _]|[R2 _]] _]; lia.
   Qed.
 
@@ -1058,14 +1060,13 @@ Section Cyclic.
   Lemma cyc_edges x y : In x L -> In y L -> x <> y -> dependsOn x y = true -> rho_c y < rho_c x.
   Proof.
     intros Hx Hy Hne Hd.
-    destruct (detach_image cs x (wf_tabs cs HWF) Hx) as [sx [Hsx Ix]]. destruct (detach_image cs y (wf_tabs cs HWF) Hy) as [sy [Hsy Iy]].
+    destruct (detach_image cs x Hx) as [sx [Hsx Ix]]. destruct (detach_image cs y Hy) as [sy [Hsy Iy]].
     assert (Hsame : nm x = nm y -> sx = sy).
     { intros E. apply (names_inj cs HWF); [assumption|assumption|].
       destruct Ix as [Ix|Ix]; [apply pimage_rank in Ix|apply dimage_rank in Ix];
       destruct Iy as [Iy|Iy]; [apply pimage_rank in Iy|apply dimage_rank in Iy| apply pimage_rank in Iy|apply dimage_rank in Iy];
       intuition congruence. }
-    pose proof (image_not_obj sx x Ix) as Hox. pose proof (image_not_obj sy y Iy) as Hoy.
-    destruct x as [t1 f1|t1 f1|t1 tcs1|o1|o1]; destruct y as [t2 f2|t2 f2|t2 tcs2|o2|o2]; simpl in Hd; try discriminate; simpl; try lia.
+    destruct x as [t1 f1|t1 f1|t1 tcs1]; destruct y as [t2 f2|t2 f2|t2 tcs2]; simpl in Hd; try discriminate; simpl; try lia.
     - (* Add / Add: the kept keys are self references *)
       exfalso. apply refTo_ex in Hd. destruct Hd as [f [Hf Hr]].
       assert (Hself : t_name (f_ref f) = t_name t1).
@@ -1161,30 +1162,31 @@ Section Cyclic.
       - (* no declared key points at a dropped table *)
         intros x f Hx Hf Hd. apply (proj1 (outL x)) in Hx.
         apply (Permutation_in _ (Permutation_sym (fmO drops))) in Hd. unfold L in Hd. rewrite detach_drops in Hd.
-        destruct (detach_image cs x (wf_tabs cs HWF) Hx) as [src [Hsrc Im]].
+        destruct (detach_image cs x Hx) as [src [Hsrc Im]].
         assert (Hfs : In f (added_fks src)).
         { destruct Im as [Im|Im]; [apply (pimage_added src x f Im Hf)|apply (dimage_added src x f Im Hf)]. }
         apply (wf_decl cs HWF src f Hsrc Hfs Hd).
       - (* declared keys *)
         intros pre x post f Eo Hf.
         assert (Hx : In x L) by (apply outL; rewrite Eo; apply in_or_app; right; left; reflexivity).
-        destruct (detach_image cs x (wf_tabs cs HWF) Hx) as [src [Hsrc Im]].
+        destruct (detach_image cs x Hx) as [src [Hsrc Im]].
         assert (Hfs : In f (added_fks src)).
         { destruct Im as [Im|Im]; [apply (pimage_added src x f Im Hf)|apply (dimage_added src x f Im Hf)]. }
         destruct (cn_parent c cs Hcons src f Hsrc Hfs) as [H|H]; [left; exact H|right].
-        destruct x as [t fks|t fks|t tcs|o|o]; try (destruct Hf; fail).
+        destruct x as [t fks|t fks|t tcs].
         + (* created table: the kept keys are self references *)
           right. destruct Im as [Im|Im]; inversion Im; subst.
           match goal with Hall : forall g, In g fks -> _ |- _ => destruct (Hall f Hf) as [Hin Hp] end. simpl.
           match goal with Hs : In (AddTable t ?fks0) cs |- _ =>
             rewrite (self_name (AddTable t fks0) t fks0 f Hs eq_refl eq_refl Hin Hp) end. reflexivity.
+        + destruct Hf.
         + left. apply (created_before pre t tcs post f Eo Hf H).
       - (* modified tables *)
         intros pre t tcs post Eo. split.
         + intros Hin. apply in_drops_iff in Hin. destruct Hin as [t' [fks' [Hin _]]].
           pose proof (Hbehind pre _ post _ Eo eq_refl Hin) as Hd. discriminate.
         + assert (Hx : In (ModifyTable t tcs) L) by (apply outL; rewrite Eo; apply in_or_app; right; left; reflexivity).
-          destruct (detach_image cs _ (wf_tabs cs HWF) Hx) as [src [Hsrc Im]].
+          destruct (detach_image cs _ Hx) as [src [Hsrc Im]].
           pose proof (conj Eo I) as EoP. clear Eo.
           destruct Im as [Im|Im]; inversion Im; subst; destruct EoP as [Eo _].
           * left. apply (cn_drops c cs Hcons). apply in_drops_iff. exists t, fks. split; [exact Hsrc|reflexivity].
@@ -1205,7 +1207,7 @@ Section Cyclic.
         assert (Hne' : fst (fst e) <> snd e) by (rewrite Hp; exact Hne).
         destruct (cn_live c cs Hcons e He Hpd Hne') as [y [Hy [Hny Hcov]]].
         assert (Hrem : exists z, In z L /\ is_drop z = false /\ removes (fst (fst e)) (snd (fst e)) z = true).
-        { destruct y as [t fks0|t fks0|t tcs|o|o]; simpl in Hcov; try (destruct Hcov; fail); unfold nm in Hny; simpl in Hny.
+        { destruct y as [t fks0|t fks0|t tcs]; simpl in Hcov; [destruct Hcov| |]; unfold nm in Hny; simpl in Hny.
           - destruct Hcov as [f [Hf [Hs Hr]]].
             assert (Hpf : ptr_eqb (f_ref f) t = false).
             { apply (ptr_false cs HWF (DropTable t fks0) f Hy Hf). unfold nm. simpl. congruence. }
@@ -1229,15 +1231,15 @@ Section Cyclic.
       - (* explicitly dropped keys: once *)
         apply (Permutation_NoDup (fmO rm_keys)). unfold L. rewrite detach_rm_keys.
         apply NoDup_keys; [apply (wf_names cs HWF)| |].
-        + intros x Hx. pose proof (wf_rm cs HWF x Hx) as Hw. destruct x as [t fks|t fks|t tcs|o|o]; simpl; try constructor.
+        + intros x Hx. pose proof (wf_rm cs HWF x Hx) as Hw. destruct x as [t fks|t fks|t tcs]; simpl; try constructor.
           * apply NoDup_map_pair. unfold ext_of. apply NoDup_map_filter. exact Hw.
           * apply NoDup_map_pair. exact Hw.
-        + intros x k _ Hk. destruct x as [t fks|t fks|t tcs|o|o]; simpl in Hk; try (destruct Hk; fail);
+        + intros x k _ Hk. destruct x as [t fks|t fks|t tcs]; simpl in Hk; try (destruct Hk; fail);
             apply in_map_iff in Hk; destruct Hk as [s0 [<- _]]; reflexivity.
       - (* ... and live *)
         intros k Hk. apply (Permutation_in _ (Permutation_sym (fmO rm_keys))) in Hk. unfold L in Hk.
         rewrite detach_rm_keys in Hk. apply in_flat_map in Hk. destruct Hk as [x [Hx Hk]].
-        pose proof (cn_rm_live c cs Hcons x Hx) as Hl. destruct x as [t fks|t fks|t tcs|o|o]; simpl in Hk; try (destruct Hk; fail).
+        pose proof (cn_rm_live c cs Hcons x Hx) as Hl. destruct x as [t fks|t fks|t tcs]; simpl in Hk; try (destruct Hk; fail).
         + apply in_map_iff in Hk. destruct Hk as [s0 [<- Hs]]. apply in_map_iff in Hs. destruct Hs as [f [<- Hf]].
           apply filter_In in Hf. apply (Hl f (proj1 Hf)).
         + apply in_map_iff in Hk. destruct Hk as [s0 [<- Hs]]. apply (Hl s0 Hs).
@@ -1368,7 +1370,7 @@ Proof. induction l as [|a l IH]; simpl; [reflexivity|exact IH]. Qed.
 Lemma decl_detach1 x :
   Permutation (flat_map decl (det_planned x) ++ flat_map decl (det_deferred x)) (decl x).
 Proof.
-  destruct x as [t fks|t fks|t tcs|o|o]; unfold decl; simpl; try apply Permutation_refl.
+  destruct x as [t fks|t fks|t tcs]; unfold decl; simpl.
   - remember (filter (fun f => negb (ptr_eqb (f_ref f) t)) fks) as ext0 eqn:E.
     destruct ext0 as [|e ext].
     + simpl. rewrite !app_nil_r. apply Permutation_refl.
